@@ -52,9 +52,10 @@ def check(ctx):
                 c[i] = rng.choice([0xff, 0x00, c[i] ^ 0x80, 0x1b, 0x1c])
             progs.setdefault(bytes(c), "mutated-contract")
     keys = list(progs.keys())
-    if ctx.replay_in:
+    stage = vlib.stage_replay(ctx)
+    if ctx.replay_in and not stage:
         keys = [bytes.fromhex(json.load(open(ctx.replay_in))["replay"]["code"])]
-    if hb:
+    if hb and not stage:
         out = L.analyze(ctx, hb, keys)
         terms = [L.hexify("(%s)" % l) for l in out]
         bad = vlib.run_cases(ctx, "layouts", L.HEADER, terms, per_shard=max(1, len(terms) // 32 + 1), fn="c12_code")
@@ -69,5 +70,7 @@ def check(ctx):
                              "input_classes": dict(collections.Counter(progs.values())),
                              "analysis_classes": {str(k): v for k, v in classes.items()},
                              "layout_entries_checked": sum(l.count(",(AT") for l in out)})
+    import p_passes_packing
+    p_passes_packing.suite(ctx, translate=False, codes={10, 12, 13, 14, 17}, cov_key="lifting_passes_packing", only=r"^(subword_in_slot|shifted_in_slot|packed_spans|packing3_in_slot|get_region_(sound|no_panic)|which_power_of_2_bound)")
     return vlib.finish(ctx, rule="distinct programs; non-trivial = the analysis returned a layout with at least two entries",
                        samples=[c.hex()[:120] for c in keys[:3]])
